@@ -173,7 +173,7 @@ CLAIMS['C10'] = dict(engine='rtc (E3)', category='exploration',
     technique='run-time postconditions of GFCrystalcalc.SetRates/__call__ against independently computed rates: lattice diffusion equation (residual <= 1e-6, or small and shrinking under k-mesh refinement), endpoint swap, space-group invariance, uniform scaling, 3D continuum pole; bounded stand-in',
     text='Bounded: on catalogue crystals and purpose-built cases (diffusing species not listed first and permuted differently from species 0, every site its own network, equivalent and inequivalent disconnected networks) '
          'with seeded non-uniform site energies and rates, the Green function satisfies the lattice equation to the integration accuracy, is symmetric under endpoint swap, invariant under the space group, scales inversely with a uniform rate factor and approaches the continuum pole in 3D.',
-    note='Default k-mesh; far field within 15 % at kptgrid/4 cells.')
+    note='Default k-mesh; far field within 1/n at n = kptgrid/4 cells; the residual clause is skipped for the 8 kT data set (k-mesh under-resolved).')
 
 NOT_APPLICABLE = {
     'C01': 'no contract within reach: the postcondition "equals the infinite-dilution limit of the exact Markov chain, to integration accuracy" needs an independent infinite-lattice solver as oracle (differential testing, a different technique) and no SMT/CAS obligation expresses a quadrature error; the discrete mechanisms it rests on are claimed in C24-C26, its invariances in C04, its sum rules in C06',
